@@ -1,5 +1,7 @@
 import RpmVerif.Driver.C13
 import RpmVerif.Driver.C01
+import RpmVerif.Driver.C16
+import RpmVerif.Driver.C20
 /-! Driver: one request per line in (`<op> <args…> => <impl observation>`), one answer per line
 out (`<model observation> | <spec verdict> | <branch label>`).
 Each property contributes `Driver/Cxx.lean` with `ops : List String` and
@@ -8,7 +10,9 @@ open RpmVerif.Driver
 
 def handlers : List (List String × (String → List String → String → String)) := [
   (C13.ops, C13.handle),
-  (C01.ops, C01.handle)
+  (C01.ops, C01.handle),
+  (C16.ops, C16.handle),
+  (C20.ops, C20.handle)
 ]
 
 def dispatch (line : String) : String :=
